@@ -401,6 +401,41 @@ def job_axis(direction, masked, et, tier):
     return out
 
 
+def job_ang2dir(dim, ndir, tier):
+    """geometric.ang2dir on symbolic angles: every direction is the spherical-coordinate unit vector of its own angles
+    (azimuth, polar, ...), independently of the other directions handed over in the same call"""
+    vv = _setup()
+    from gstools.tools import geometric as geo
+
+    T = core.tier_timeout(tier)
+    out = []
+    A = [[real(f"ang{j}_{i}") for i in range(dim - 1)] for j in range(ndir)]
+    wv = {str(s.e): s for r in A for s in r}
+    rb = ("ang2dir", lambda v: {"dim": dim, "ndir": ndir, "values": v})
+    sin, cos = theory.UF["sin"], theory.UF["cos"]
+
+    def run():
+        arr = rnp.array([[a for a in row] for row in A], dtype=object)
+        return geo.ang2dir(arr, dtype=object, dim=dim) if False else geo.ang2dir(arr, dim=dim)
+
+    for pi, p in enumerate(explore(run, max_paths=8)):
+        base = f"C08/ang2dir/d{dim}n{ndir}/path{pi}"
+        if p.exc is not None:
+            out.append(rec(base, "error", detail=f"{p.exc!r} {p.tb}"))
+            continue
+        vec = rnp.asarray(p.out, dtype=object)
+        for j in range(ndir):
+            a = [x.e for x in A[j]]
+            if dim == 2:
+                ref = [cos(a[0]), sin(a[0])]
+            else:
+                ref = [cos(a[0]) * sin(a[1]), sin(a[0]) * sin(a[1]), cos(a[1])]
+            for k in range(dim):
+                out.append(prove(f"{base}/direction {j}[{k}] == spherical unit vector of its own angles", p.conds, lift(vec[j, k]) == ref[k], T, witness_vars=wv, replay=rb, pairwise=False))
+    return out
+
+
+
 def jobs(tier, seed):
     big = tier == "thorough"
     js = []
@@ -428,6 +463,8 @@ def jobs(tier, seed):
     if big:
         js.append(Job("wrapper-plain-d3", job_wrapper_iso, 3, 3, 2, "m", "plain", tier))
     js.append(Job("wrapper-args", job_wrapper_args, tier))
+    for dim_, nd_ in ((2, 2), (3, 1), (3, 2), (3, 3)):
+        js.append(Job(f"ang2dir-d{dim_}-n{nd_}", job_ang2dir, dim_, nd_, tier))
     for direction in ("x", "y"):
         for masked in ("no", "nan", "ma"):
             js.append(Job(f"axis-{direction}-{masked}", job_axis, direction, masked, "m", tier))
@@ -592,5 +629,17 @@ def replay_axis(inputs):
     return bool(ok), f"G={G.tolist()} res={np.asarray(res).tolist()} definition={ref.tolist()}"
 
 
+def replay_ang2dir(inputs):
+    import numpy as np
+    from gstools.tools import geometric as geo
+
+    dim, ndir, v = int(inputs["dim"]), int(inputs["ndir"]), inputs.get("values") or {}
+    A = np.array([[_val(v, f"ang{j}_{i}", 0.4 + 0.7 * j + 0.5 * i) for i in range(dim - 1)] for j in range(ndir)])
+    got = geo.ang2dir(A, dim=dim)
+    want = np.array([[np.cos(a[0]), np.sin(a[0])] if dim == 2 else [np.cos(a[0]) * np.sin(a[1]), np.sin(a[0]) * np.sin(a[1]), np.cos(a[1])] for a in A])
+    ok = np.allclose(got, want, rtol=1e-12, atol=1e-14)
+    return bool(ok), f"angles={A.tolist()} ang2dir={np.asarray(got).tolist()} spherical unit vectors={want.tolist()}"
+
+
 REPLAY = dict(c15.REPLAY)
-REPLAY.update({"wrapper": replay_wrapper, "args": replay_args, "axis": replay_axis})
+REPLAY.update({"ang2dir": replay_ang2dir, "wrapper": replay_wrapper, "args": replay_args, "axis": replay_axis})
